@@ -51,10 +51,10 @@ SumSources(T) == <<[m \in 1..Len(T[1]) |-> [k \in 1..Len(T[1][m]) |-> [p \in 1..
 \* a call that involves fewer objects may have a shorter path axis (malt entries): it must equal the first malt entries of the
 \* canonical tensor, and the canonical tensor must be static beyond (objects with shorter paths stay at their last pose)
 ExpectedFlat(T, form, l, k, malt) ==
-  CASE form \in {"top", "top_squeeze", "coll_sens", "dataframe"} -> Flat4(T)
+  CASE form \in {"top", "top_squeeze", "top_positional", "coll_sens", "dataframe"} -> Flat4(T)
     [] form = "src_method" -> Flat4(<<[m \in 1..malt |-> T[l][m]]>>)
     [] form = "sens_method" -> Flat4([s \in 1..Len(T) |-> [m \in 1..malt |-> <<T[s][m][k]>>]])
-    [] form \in {"sumup", "coll_src", "coll_both"} -> Flat4(SumSources(T))
+    [] form \in {"sumup", "sumup_positional", "coll_src", "coll_both"} -> Flat4(SumSources(T))
     [] form \in {"functional", "core"} -> Flat4(<<[m \in 1..Len(T[l]) |-> <<T[l][m][k]>>]>>)
 \* the documented row order of output='dataframe': source, path, sensor, pixel (0-based path and pixel)
 DataframeIndex(T) ==
